@@ -12,8 +12,22 @@ Decided from the source of mitmproxy/flowfilter.py (the pyparsing grammar is rea
         the operator token, FUrl.make also accepts the naked form and the naked alternative is wired to the ``~u`` class;
         _Rex.__init__ compiles with ``... | maybe_ignore_case`` (IGNORECASE unless the env switch), compile errors and
         ParseException both surface as ValueError; every _Rex class applies its pattern with ``search``.
+  R42.3 documented part of the flow: ``__call__`` of every regex operator class - with its decorators, i.e. through
+        ``only(...)`` - is INTERPRETED from its AST (pyint; nothing is imported or run) on abstract flows of every type
+        (HTTP with / without response and WebSocket messages, TCP, UDP, DNS with / without response) whose parts are
+        distinct tokens, with a recording pattern in place of ``self.re``.  (a) With a pattern that matches nothing, the set
+        of parts the pattern is applied to must EQUAL the documented one (table SUBJECTS below: ~d = the host the request
+        goes to and the host named by Host/:authority, ~u = the pretty URL / the DNS question name, ~hq = the request
+        header block, ~bq = request body + client WebSocket/TCP/UDP messages + DNS request ...) and the verdict is False;
+        the subject has the type of the pattern (str for _StrRex, bytes for _BinRex).  (b) With a pattern that matches
+        exactly one documented part, the verdict is True.  Narrowing (~d looking at pretty_host only), redirecting (~hq
+        at the response) and and-ing instead of or-ing the parts all change the verdict of some flow.
+  R42.4 operators without a regex argument: ``__call__`` of every unary / integer operator class (through ``only(...)``, built through
+        its constructor: ``~c 200``) is interpreted on the same abstract flows plus variants (error set, marked, replayed request /
+        response, status 404, asset content-type on the response / on the request only); the verdict must equal the documented one
+        (table _verdict_spec: ~q = HTTP or DNS flow without response, ~a = HTTP response with an asset content-type ...).
 NOT decided: pyparsing's own behaviour (infix_notation precedence climbing, WordEnd, QuotedString escapes), verdict equality
-over generated expressions, which part of the flow each operator inspects.
+over generated expressions.
 """
 
 from __future__ import annotations
@@ -38,11 +52,13 @@ PROP = "C42"
 REG = {
     "strength": "partial",
     "technique": "grammar-as-table extraction from _make (operator rows, literal loops, argument alternatives) + registry agreement "
-    "with the _Action class hierarchy + token-nesting check of the parse actions",
+    "with the _Action class hierarchy + token-nesting check of the parse actions + interpretation (pyint) of the regex operators' "
+    "__call__ (through their decorators) on abstract flows with a recording pattern",
     "claim": "precedence ! > & > | with FNot/FAnd/FOr = not/all/any and juxtaposition = FAnd; all 32 operator classes are registered "
     "once in the list whose grammar loop matches their constructor, with unique codes and prefix-safe literals; operator arguments "
     "accept unquoted, single- and double-quoted regexes; regexes are compiled case-insensitively and applied with search; bad "
-    "expressions surface as ValueError.",
+    "expressions surface as ValueError; every regex operator applies its pattern to exactly the documented parts of each flow type "
+    "(interpreted on abstract flows with a recording pattern) and matches when any one of them matches.",
     "note": "Trusted: pyparsing (infix_notation: earlier rows bind tighter, default parentheses; MatchFirst order; WordEnd; "
     "QuotedString; non-parse exceptions from parse actions propagate). Verdict equality over generated expressions is not decided.",
 }
@@ -543,20 +559,282 @@ def check_make_and_rex(ctx, g, classes, concrete):
     ctx.require(any(isinstance(c, ast.Call) and call_name(c) == "int" for c in ast.walk(ii)), "_Int.__init__ no longer converts with int()")
 
 
+# ---------------------------------------------------------------------------------------------------
+# R42.3: which parts of the flow a regex operator inspects
+
+
+class _Part:
+    """native attribute bag standing for a message / connection; an attribute the rule did not foresee reads as a token naming it"""
+
+    def __init__(self, path, **kw):
+        self.__dict__.update(kw)
+        self.__dict__["_path"] = path
+
+    def __getattr__(self, name):
+        if name.startswith("__"):
+            raise AttributeError(name)
+        return f"<{self._path}.{name}?>"
+
+
+class _Hdrs:
+    def __init__(self, side):
+        self.side = side
+        self.fields = ((b"Content-Type", f"<{side} content-type>".encode()), (b"X-Other", f"<{side} x-other>".encode()))
+
+    def __bytes__(self):
+        return f"<{self.side} header block>".encode()
+
+
+class _Dns(_Part):
+    def __str__(self):
+        return f"<dns {self._path}>"
+
+
+class _Pat:
+    """stands for a compiled pattern: records what it is applied to; matches ``hit`` only"""
+
+    flags = 0
+
+    def __init__(self, hit=None):
+        self.hit = hit
+        self.seen = []
+
+    def search(self, subject, *a):
+        self.seen.append(subject)
+        return self if (self.hit is not None and subject == self.hit) else None
+
+    match = fullmatch = search
+
+
+def _msg(text, from_client):
+    return _Part("message", content=text.encode(), from_client=from_client)
+
+
+def _http_message(side, **kw):
+    body = f"<{side} body>".encode()
+    return _Part(side, headers=_Hdrs(side), content=body, get_content=lambda strict=True: body, raw_content=f"<{side} raw body>".encode(),
+                 text=f"<{side} text>", get_text=lambda strict=True: f"<{side} text>", **kw)
+
+
+def _flows(error=None, marked="<marker>", is_replay=None, status=200, request_type=None, response_type=None):
+    from ..pyint import Rec
+
+    def common():
+        return dict(error=error, marked=marked, comment="<comment>", metadata={"k1": "v1", "k2": "v2"}, is_replay=is_replay, live=False, intercepted=False,
+                    client_conn=_Part("client_conn", peername=("<client ip>", 1111)), server_conn=_Part("server_conn", address=("<server host>", 2222)))
+
+    def http(full):
+        req = _http_message("request", host="<request.host>", pretty_host="<request.pretty_host>", url="<request.url>", pretty_url="<request.pretty_url>", port=80, method="<request.method str>",
+                            data=_Part("request.data", method=b"<request method>", host="<request.host>"))
+        resp = _http_message("response", status_code=status, reason="<reason>", data=_Part("response.data", status_code=status)) if full else None
+        for msg, ct in ((req, request_type), (resp, response_type)):
+            if msg is not None and ct is not None:
+                msg.headers.fields = ((b"content-type", ct),) + msg.headers.fields[1:]
+        ws = _Part("websocket", messages=[_msg("<websocket client message>", True), _msg("<websocket server message>", False)]) if full else None
+        return Rec("HTTPFlow", _bases=("Flow",), _name="http flow", request=req, response=resp, websocket=ws, **common())
+
+    def stream(cls, what):
+        return Rec(cls, _bases=("Flow",), _name=f"{what} flow", messages=[_msg(f"<{what} client message>", True), _msg(f"<{what} server message>", False)], **common())
+
+    def dns(full):
+        return Rec("DNSFlow", _bases=("Flow",), _name="dns flow", request=_Dns("request", questions=[_Part("question", name="<dns question name>")]),
+                   response=_Dns("response", questions=[]) if full else None, **common())
+
+    return {"http": http(True), "http-no-response": http(False), "tcp": stream("TCPFlow", "tcp"), "udp": stream("UDPFlow", "udp"), "dns": dns(True), "dns-no-response": dns(False)}
+
+
+def _subjects():
+    """SUBJECTS: operator code -> flow kind -> the documented parts (as the tokens of _flows()).  Sources: the help strings ("Request header",
+    "Response body", "Domain", "URL" ...), docs/src/content/concepts/filters.md ("Header matching is against a string of the form name: value",
+    "Strings with no operators are matched against the request URL"), CHANGELOG ("Match ~d and ~u filters against pretty_host"; WebSocket / TCP /
+    UDP / DNS support of ~b ~bq ~bs and ~u)."""
+    rq_ct, rs_ct = b"<request content-type>", b"<response content-type>"
+    rq_h, rs_h = b"<request header block>", b"<response header block>"
+    rq_b, rs_b = b"<request body>", b"<response body>"
+    ws_c, ws_s = b"<websocket client message>", b"<websocket server message>"
+    everywhere = {"src": {"<client ip>:1111"}, "dst": {"<server host>:2222"}, "meta": {"k1: v1\nk2: v2"}, "marker": {"<marker>"}, "comment": {"<comment>"}}
+    http_always = {"m": {b"<request method>"}, "d": {"<request.host>", "<request.pretty_host>"}, "u": {"<request.pretty_url>"}}
+    table = {
+        "http": {"t": {rq_ct, rs_ct}, "tq": {rq_ct}, "ts": {rs_ct}, "h": {rq_h, rs_h}, "hq": {rq_h}, "hs": {rs_h},
+                 "b": {rq_b, rs_b, ws_c, ws_s}, "bq": {rq_b, ws_c}, "bs": {rs_b, ws_s}, **http_always},
+        "http-no-response": {"t": {rq_ct}, "tq": {rq_ct}, "ts": set(), "h": {rq_h}, "hq": {rq_h}, "hs": set(), "b": {rq_b}, "bq": {rq_b}, "bs": set(), **http_always},
+        "dns": {"b": {b"<dns request>", b"<dns response>"}, "bq": {b"<dns request>"}, "bs": {b"<dns response>"}, "u": {"<dns question name>"}},
+        "dns-no-response": {"b": {b"<dns request>"}, "bq": {b"<dns request>"}, "bs": set(), "u": {"<dns question name>"}},
+    }
+    for what in ("tcp", "udp"):
+        c, s_ = f"<{what} client message>".encode(), f"<{what} server message>".encode()
+        table[what] = {"b": {c, s_}, "bq": {c}, "bs": {s_}}
+    codes = set(everywhere) | {k for row in table.values() for k in row}
+    return {code: {kind: (everywhere[code] if code in everywhere else table[kind].get(code, set())) for kind in table} for code in codes}
+
+
+def check_subjects(ctx, classes, concrete):
+    from ..pyint import Func
+    from ..pyint import Interp
+    from ..pyint import Raised
+    from ..pyint import Rec
+
+    spec = _subjects()
+    flows = _flows()
+    rex = {q: concrete[q] for q, (d, anc) in classes.items() if "_Rex" in anc[1:] and q in concrete}
+    ctx.require(len(rex) >= 10, f"only {len(rex)} regex operator classes found")
+    undocumented = sorted(code for code in rex.values() if code not in spec)
+    ctx.require(not undocumented, f"R42.3 has no documented-subject row for the regex operator(s) {', '.join('~' + c for c in undocumented)}: extend SUBJECTS")
+    mod = ctx.model.module(F)
+    n = 0
+    for q, code in sorted(rex.items(), key=lambda kv: kv[1]):
+        anc = classes[q][1]
+        want_type = str if "_StrRex" in anc else bytes if "_BinRex" in anc else None
+        r = ctx.model.method(F, q, "__call__")
+        ctx.require(r is not None, f"{q}.__call__ vanished")
+        fn = r[1]
+        problems = []
+
+        def run(kind, pat):
+            it = Interp(ctx.model)
+            func = Func(r[0], fn)
+            for dec in reversed(fn.decorator_list):
+                func = it.apply(it.ev(dec, {}, r[0], 0), [func], {}, 0)
+            me = Rec(q, _bases=tuple(anc[1:]), _impl=(F, q), re=pat, expr="x")
+            try:
+                return it.truthy(it.apply(func, [me, flows[kind]], {}, 0))
+            except Raised as e:
+                return f"raises {e.name}"
+
+        for kind in flows:
+            want = spec[code][kind]
+            pat = _Pat()
+            verdict = run(kind, pat)
+            n += 1
+            got = set(pat.seen)
+            if isinstance(verdict, str):
+                problems.append(f"on a {kind} flow it {verdict}")
+                continue
+            if got != want:
+                missing, extra = sorted(want - got, key=repr), sorted(got - want, key=repr)
+                problems.append(f"on a {kind} flow the pattern is applied to {sorted(got, key=repr)}" + (f", not to {missing}" if missing else "") + (f"; {extra} is not a documented part" if extra else ""))
+                continue
+            wrong = [x for x in got if want_type is not None and not isinstance(x, want_type)]
+            if wrong:
+                problems.append(f"on a {kind} flow a {want_type.__name__} pattern is applied to {wrong}")
+                continue
+            if verdict:
+                problems.append(f"on a {kind} flow the verdict is True although the pattern matches nothing")
+                continue
+            for hit in sorted(want, key=repr):
+                n += 1
+                v = run(kind, _Pat(hit))
+                if v is not True:
+                    problems.append(f"on a {kind} flow whose {hit!r} matches the verdict is {v if isinstance(v, str) else 'False'}")
+        ctx.check(not problems, "R42.3", (F, f"{q}.__call__", fn), f"~{code} ({q}): {problems[0] if problems else ''}"[:300],
+                  f"documented: ~{code} is '{_help_of(classes[q][0])}' - the regex must be searched in exactly that part of the flow, and a match in any of its parts matches",
+                  desc=f"~{code} {q}: " + "; ".join(f"{kind}: {len(spec[code][kind])}" for kind in flows if spec[code][kind]))
+    ctx.cells += n
+    ctx.bounds.append("R42.3: one abstract flow per kind (HTTP with response+WebSocket / without, TCP, UDP, DNS with / without response); bodies, headers and peers present")
+
+
+# ---------------------------------------------------------------------------------------------------
+# R42.4: verdicts of the operators without a regex argument
+
+
+def _verdict_spec():
+    """code -> f(kind, variant) -> documented verdict.  variant: dict(error, marked, replay, status, asset) describing the abstract flow."""
+    has_response = ("http", "dns")
+    return {
+        "e": lambda k, v: v["error"],
+        "marked": lambda k, v: v["marked"],
+        "http": lambda k, v: k.startswith("http"),
+        "tcp": lambda k, v: k == "tcp",
+        "udp": lambda k, v: k == "udp",
+        "dns": lambda k, v: k.startswith("dns"),
+        "websocket": lambda k, v: k == "http",
+        "q": lambda k, v: k in ("http-no-response", "dns-no-response"),
+        "s": lambda k, v: k in has_response,
+        "all": lambda k, v: True,
+        "a": lambda k, v: k == "http" and v["asset"] == "response",
+        "replay": lambda k, v: v["replay"] is not None,
+        "replayq": lambda k, v: v["replay"] == "request",
+        "replays": lambda k, v: v["replay"] == "response",
+        "c": lambda k, v: k == "http" and v["status"] == 200,  # the operator is built as ~c 200
+    }
+
+
+def check_verdicts(ctx, classes, concrete):
+    import re as _re
+
+    from ..pyint import ClassRef
+    from ..pyint import Func
+    from ..pyint import Interp
+    from ..pyint import Raised
+    from ..pyint import Rec
+
+    spec = _verdict_spec()
+    plain = {q: concrete[q] for q, (d, anc) in classes.items() if "_Rex" not in anc[1:] and q in concrete}
+    undocumented = sorted(code for code in plain.values() if code not in spec)
+    ctx.require(not undocumented, f"R42.4 has no verdict row for the operator(s) {', '.join('~' + c for c in undocumented)}: extend _verdict_spec")
+    base = dict(error=False, marked=False, replay=None, status=200, asset=None)
+    variants = [base, {**base, "error": True}, {**base, "marked": True}, {**base, "replay": "request"}, {**base, "replay": "response"}, {**base, "status": 404},
+                {**base, "asset": "response"}, {**base, "asset": "request"}]
+    worlds = []
+    for v in variants:
+        fl = _flows(error=_Part("error", msg="boom") if v["error"] else None, marked="<marker>" if v["marked"] else "", is_replay=v["replay"], status=v["status"],
+                    request_type=b"image/png" if v["asset"] == "request" else None, response_type=b"text/css; charset=utf-8" if v["asset"] == "response" else None)
+        worlds.append((v, fl))
+    n = 0
+    for q, code in sorted(plain.items(), key=lambda kv: kv[1]):
+        anc = classes[q][1]
+        r = ctx.model.method(F, q, "__call__")
+        ctx.require(r is not None, f"{q}.__call__ vanished")
+        fn = r[1]
+        problems = []
+        for v, fl in worlds:
+            for kind, flow in fl.items():
+                it = Interp(ctx.model, trusted_modules={"re": _re})
+                try:
+                    me = it.apply(ClassRef(ctx.model.module(F), classes[q][0]), ["200"] if "_Int" in anc else [], {}, 0)
+                    func = Func(r[0], fn)
+                    for dec in reversed(fn.decorator_list):
+                        func = it.apply(it.ev(dec, {}, r[0], 0), [func], {}, 0)
+                    got = it.truthy(it.apply(func, [me, flow], {}, 0))
+                except Raised as e:
+                    got = f"raises {e.name}"
+                n += 1
+                want = bool(spec[code](kind, v))
+                if got != want and len(problems) < 3:
+                    diff = ", ".join(f"{k}={val}" for k, val in v.items() if val != base[k]) or "plain"
+                    problems.append(f"on a {kind} flow ({diff}) the verdict is {got}, documented {want}")
+        ctx.check(not problems, "R42.4", (F, f"{q}.__call__", fn), f"~{code} ({q}): {problems[0] if problems else ''}"[:300],
+                  f"documented: ~{code} is '{_help_of(classes[q][0])}'", desc=f"~{code} {q}: {len(worlds) * 6} abstract flows")
+    ctx.cells += n
+
+
+def _help_of(cls: ast.ClassDef) -> str:
+    mem = class_members(cls, strict=False)
+    node = mem.get("help")
+    return node.value.value if isinstance(node, ast.Assign) and isinstance(node.value, ast.Constant) else "?"
+
+
 def check(ctx):
     ctx.rule("R42.1", "infix_notation rows are ! (prefix) > & > | mapped to FNot/FAnd/FOr = not/all/any with matching token nesting; juxtaposition = FAnd")
     ctx.rule("R42.2", "every operator class is registered once, in the list whose grammar loop matches its constructor; unique, prefix-safe codes; quoted and "
              "unquoted arguments; case-insensitive search; errors surface as ValueError")
+    ctx.rule("R42.3", "every regex operator applies its pattern to exactly the documented parts of each flow type (interpreted on abstract flows with a recording pattern) and "
+             "matches when any one of them matches")
+    ctx.rule("R42.4", "every operator without a regex argument (~q ~s ~e ~a ~c ~http ...) gives the documented verdict on abstract flows of every type (interpreted through its decorators)")
     g = Grammar(ctx)
     check_operators(ctx, g)
     classes, concrete, lists = check_registry(ctx, g)
     check_make_and_rex(ctx, g, classes, concrete)
+    ctx.guard(check_subjects, ctx, classes, concrete)
+    ctx.guard(check_verdicts, ctx, classes, concrete)
     ctx.note(f"{len(concrete)} operator classes: " + ", ".join(f"{n}={len(v)}" for n, v in lists.items()))
     ctx.trust("pyparsing: infix_notation binds earlier rows tighter and groups with ( ); MatchFirst tries alternatives in order; WordEnd; QuotedString; "
               "exceptions other than ParseBaseException raised by parse actions propagate")
     if not ctx.findings:  # a violated obligation can skip dependent instances; the run fails anyway
         ctx.expect_instances("R42.1", 1 + 3 * 3 + 1)
         ctx.expect_instances("R42.2", 3 + 32 + 2 + 3 + 4 + 17 + 1)
+        ctx.expect_instances("R42.3", 17)
+        ctx.expect_instances("R42.4", 15)
 
 
 MUTANTS = [
@@ -582,5 +860,19 @@ MUTANTS = [
     Mutant("method-regex-anchored", F, "self.re.search(f.request.data.method)", "self.re.match(f.request.data.method)", "R42.2"),
     Mutant("make-keeps-operator-token", F, "        return cls(*toks[1:])", "        return cls(*toks)", "R42.2"),
     Mutant("parse-exception-escapes", F, "    except (pp.ParseException, ValueError) as e:", "    except ValueError as e:", "R42.2"),
+    Mutant("domain-ignores-destination-host", F, "        return bool(\n            self.re.search(f.request.host) or self.re.search(f.request.pretty_host)\n        )\n", "        return bool(self.re.search(f.request.pretty_host))\n", "R42.3"),
+    Mutant("domain-requires-both-hosts", F, "self.re.search(f.request.host) or self.re.search(f.request.pretty_host)", "self.re.search(f.request.host) and self.re.search(f.request.pretty_host)", "R42.3"),
+    Mutant("url-ignores-host-header", F, "return bool(self.re.search(f.request.pretty_url))", "return bool(self.re.search(f.request.url))", "R42.3"),
+    Mutant("request-body-op-reads-server-messages", F, "                    if wmsg.from_client and self.re.search(wmsg.content):\n", "                    if not wmsg.from_client and self.re.search(wmsg.content):\n", "R42.3"),
+    Mutant("method-str-subject-for-bytes-pattern", F, "return bool(self.re.search(f.request.data.method))", "return bool(self.re.search(f.request.method))", "R42.3"),
+    Mutant("response-content-type-op-reads-request", F, "        if f.response:\n            return _check_content_type(self.re, f.response)\n        return False\n", "        if f.response:\n            return _check_content_type(self.re, f.request)\n        return False\n", "R42.3"),
+    Mutant("content-type-helper-reads-any-header", F, "        name.lower() == b\"content-type\" and rex.search(value)\n", "        rex.search(value)\n", "R42.3"),
+    Mutant("url-op-no-longer-handles-dns", F, "    @only(http.HTTPFlow, dns.DNSFlow)\n    def __call__(self, f) -> bool:\n        if not f or not f.request:\n", "    @only(http.HTTPFlow)\n    def __call__(self, f) -> bool:\n        if not f or not f.request:\n", "R42.3"),
+    Mutant("only-decorator-inverted", F, "            if isinstance(flow, types):\n                return fn(self, flow)\n            return False\n", "            if not isinstance(flow, types):\n                return fn(self, flow)\n            return False\n", "R42.3"),
+    Mutant("no-response-op-inverted", F, "        return not f.response\n", "        return bool(f.response)\n", "R42.4"),
+    Mutant("asset-op-reads-request-content-type", F, "if _check_content_type(i, f.response):", "if _check_content_type(i, f.request):", "R42.4"),
+    Mutant("replayq-matches-any-replay", F, "        return f.is_replay == \"request\"\n", "        return f.is_replay is not None\n", "R42.4"),
+    Mutant("websocket-op-matches-every-http-flow", F, "        return f.websocket is not None\n", "        return True\n", "R42.4"),
+    Mutant("code-op-matches-without-response", F, "        if f.response and f.response.status_code == self.num:\n", "        if not f.response or f.response.status_code == self.num:\n", "R42.4"),
     Mutant("naked-regex-is-domain", F, "    f.set_parse_action(FUrl.make)", "    f.set_parse_action(FDomain.make)", "R42.2"),
 ]
